@@ -340,13 +340,13 @@ def cross(
             info["sample_values"] = torch.cat((info["sample_values"], evaluation))
         info["eval_time"] += time.time() - eval_start
         if _minimize:
+            raw = evaluation
             evaluation = np.pi / 2 - torch.atan(
                 (evaluation - info["min"])
             )  # Function used by I. Oseledets for TT minimization in ttpy
             evaluation_argmax = torch.argmax(evaluation)
-            eval_min = (
-                torch.tan(np.pi / 2 - evaluation[evaluation_argmax]) + info["min"]
-            )
+            # The sampled value itself (undoing the transform with tan loses all digits for large magnitudes)
+            eval_min = raw.flatten()[evaluation_argmax]
             if info["min"] == 0 or eval_min < info["min"]:
                 coords = np.unravel_index(
                     evaluation_argmax.cpu(), [Rs[j], Is[j], Rs[j + 1]]
